@@ -49,12 +49,12 @@ CLAIMED = {
    note="Trusted base: the fault layer behind the H3/H4 seams, the relaxed comparison (sim/e2), Go toolchain. Workloads are sampled (320 quick / 6000 thorough), fault positions per workload are exhaustive up to the stated bounds. Sync faults only test error propagation (tmpfs).",
    ref="DESIGN.md section 4 C17"),
  "C14": dict(level="exploration", engine="E3-structure-simulator",
-   text="Seeded histories of the real WritableBTreeV2 API in every non-background rebalancing mode, node size randomised per run so that capacity is reached in short histories, with write-out + load-back on the simulated disk as a restart anywhere in the history; a map model is checked after every step (count, order, content, search/has, refusal at capacity, header counts in the written bytes, stored hash == independent lookup3).",
+   text="Seeded histories of the real WritableBTreeV2 API in every non-background rebalancing mode, node size randomised per run so that capacity is reached in short histories, with write-out + load-back on the simulated disk as a restart anywhere in the history; a map model is checked after every step (count, order, content, search/has, refusal at capacity, header counts in the written bytes, stored hash == independent lookup3), and after every operation every write of the structure must lie inside space the allocator handed out.",
    technique="deterministic simulation of the structure API with write/load restarts vs map model",
    note="Trusted base: the map model and own lookup3 (sim/specdec/checksum.go, checked against published vectors), Go toolchain. The incremental background mode is covered by C18's schedule simulator.",
    ref="DESIGN.md section 4 C14"),
  "C15": dict(level="exploration", engine="E3-structure-simulator",
-   text="Seeded histories of the real WritableFractalHeap API with block size and max-object knobs randomised per run, volume below/at/above one direct block, write-out + load-back restarts anywhere; a byte-store model is checked after every step (every live id returns its bytes, ids distinct, object count, refused insert changes nothing), also through the read-only FractalHeap reader after each restart.",
+   text="Seeded histories of the real WritableFractalHeap API with block size and max-object knobs randomised per run, volume below/at/above one direct block, write-out + load-back restarts anywhere; a byte-store model is checked after every step (every live id returns its bytes, ids distinct, object count, refused insert changes nothing), also through the read-only FractalHeap reader after each restart; contents include degenerate ones (all zero, all ones); 2% of the runs use a 128 KiB block so that an object of exactly the maximum managed size exists; every write of the structure must lie inside allocated space.",
    technique="deterministic simulation of the structure API with write/load restarts vs byte-store model",
    note="Trusted base: the byte-store model, Go toolchain. Free space is recorded as a probe, not enforced.",
    ref="DESIGN.md section 4 C15"),
